@@ -7,7 +7,7 @@
    3. [C02_terminates]: a scalar measure [need] that every call edge of the engine decreases;
       [fuel_bound]; fuel independence above the bound. *)
 From Coq Require Import String List NArith Bool Arith Lia.
-From Parsley Require Import Obs Base Grammar Engine EngineFacts SetMapFacts Activation.
+From Parsley Require Import Obs Base Grammar Engine TermFacts EngineFacts SetMapFacts Activation.
 Import ListNotations.
 Open Scope N_scope.
 
@@ -29,9 +29,12 @@ Qed.
 Section Static.
   Variable rules : list pexpr.
 
-  (* every match of e consumes at least one byte (least fixpoint through references) *)
+  (* every match of e consumes at least one byte (least fixpoint through references).
+     A terminal: a rune always; a literal parser unless it is a user regular expression that can
+     match the empty string ([TermFacts.term_strict]; [term_ok_strict]: every terminal inside the
+     documented domain [term_ok] is strict) *)
   Inductive consuming : pexpr -> Prop :=
-  | CTerm t : consuming (PTerm t)
+  | CTerm t : term_strict t = true -> consuming (PTerm t)
   | CRef k body : nth_N rules k = Some body -> consuming body -> consuming (PRef k)
   | CMemo idx p : consuming p -> consuming (PMemo idx p)
   | CAny ps : (forall p, In p ps -> consuming p) -> consuming (PAny ps)
@@ -327,14 +330,28 @@ Section Prog.
     Proof.
       intros e c stk lrc pos ns cp err c' Hw Hcg Hcr H. destruct e; cbn [parse_step] in H; cbn [wfe] in Hw.
       - (* PTerm *)
-        destruct t as [ch]. cbn [term_parse] in H.
-        destruct (byte_at inp pos) as [b|] eqn:Eb.
-        + destruct (b =? ch).
-          * injection H as <- _ _ <-. split; [exact Hcr|].
-            intros n [E|[]]. subst n. cbn [deep node_rpos]. split; [|exact I].
-            pose proof (byte_at_some _ _ _ Eb) as L. fold fend in L. split; [lia|intros _; lia].
+        destruct t as [ch|l].
+        + (* a rune *)
+          cbn [term_parse] in H.
+          destruct (byte_at inp pos) as [b|] eqn:Eb.
+          * destruct (b =? ch).
+            -- injection H as <- _ _ <-. split; [exact Hcr|].
+               intros n [E|[]]. subst n. cbn [deep node_rpos]. split; [|exact I].
+               pose proof (byte_at_some _ _ _ Eb) as L. fold fend in L. split; [lia|intros _; lia].
+            -- injection H as <- _ _ <-. split; [exact Hcr|apply all_d_nil].
           * injection H as <- _ _ <-. split; [exact Hcr|apply all_d_nil].
-        + injection H as <- _ _ <-. split; [exact Hcr|apply all_d_nil].
+        + (* a literal parser: no node, or one leaf from pos to some r inside the file, pos < r for a
+             strict literal (TermFacts.term_parse_lit_node: every input, every position) *)
+          destruct (term_parse inp (TLit l) pos) as [res terr] eqn:Et.
+          destruct (term_parse_cases _ _ _ _ _ Et) as [->|(n0 & -> & ->)].
+          * assert (Hx : cache_rng (match terr with Some e => log_fail c pos (ecause e) | None => c end))
+              by (destruct terr; exact Hcr).
+            injection H as <- _ _ <-. split; [exact Hx|apply all_d_nil].
+          * apply term_parse_lit_node in Et. destruct Et as (_ & tok & v & r & -> & _ & Hle & Hhi & Hst).
+            injection H as <- _ _ <-. split; [exact Hcr|].
+            intros n [E|[]]. subst n. cbn [deep node_rpos]. split; [|exact I].
+            unfold i_fend in Hhi. fold (fend_of inp) in Hhi. fold fend in Hhi. split; [lia|].
+            intros X. inversion X as [t0 Hs0| | | | | | | | | | | | | |]; subst. apply Hst. exact Hs0.
       - (* PEmpty *)
         injection H as <- _ _ <-. split; [exact Hcr|].
         intros n [E|[]]. subst n. cbn [deep node_rpos]. split; [|exact I]. split; [lia|intros X; inversion X].
@@ -1026,7 +1043,7 @@ Example ex_run_408 : ex_log 408 = ex_log 100 /\ ex_ends 408 = [3].
 Proof. vm_compute. split; reflexivity. Qed.
 (* P itself is not consuming-free: "a" and "x? P b" both consume, so P is [consuming] *)
 Example ex_P_consuming : consuming ex_rules (PTerm (TRune 97)) /\ ~ consuming ex_rules (POpt (PTerm (TRune 120))).
-Proof. split; [constructor|intros X; inversion X]. Qed.
+Proof. split; [constructor; reflexivity|intros X; inversion X]. Qed.
 
 (* 2. a grammar with Many:  L -> ( a | '(' L ')' )*   on "a(a)" *)
 Definition exm_item : pexpr :=
@@ -1035,12 +1052,12 @@ Definition exm_body : pexpr := PSeq (SMany true) IArray false None [exm_item].
 Definition exm_rules : list pexpr := [PMemo 7 exm_body].
 Definition exm_site (idx : N) : option pexpr := if idx =? 7 then Some exm_body else None.
 Definition exm_Sz : nat := size (PMemo 7 exm_body).
-Definition exm_inp : input := {| i_data := [97; 40; 97; 41]; i_offset := 10 |}.
+Definition exm_inp : input := mk_input [97; 40; 97; 41] 10.
 
 Example exm_item_consuming : consuming exm_rules exm_item.
 Proof.
-  apply CAny. intros p [E|[E|[]]]; subst p; [constructor|].
-  apply (CSeqOf _ _ _ _ _ (PTerm (TRune 40))); [left; reflexivity|constructor].
+  apply CAny. intros p [E|[E|[]]]; subst p; [constructor; reflexivity|].
+  apply (CSeqOf _ _ _ _ _ (PTerm (TRune 40))); [left; reflexivity|constructor; reflexivity].
 Qed.
 Example exm_wf_grammar : wf_grammar exm_rules exm_site [7] exm_Sz.
 Proof.
@@ -1076,3 +1093,60 @@ Proof. vm_compute. reflexivity. Qed.
 Example many_of_nullable_diverges :
   run ex_inp [] 3000 (PSeq (SMany true) IArray false None [POpt (PTerm (TRune 97))]) = OutOfFuel.
 Proof. vm_compute. reflexivity. Qed.
+
+(* 4. literal terminals and trimming: left-recursive sums  S -> S '+' Integer | Integer  with
+   whitespace skipped before every token (terminal.Op("+"), terminal.Integer, text.LeftTrim),
+   on "1 + 2" at offset 1.  The hypotheses of the termination theorem are satisfiable by a
+   grammar whose terminals are literal parsers. *)
+Definition exl_int : pexpr := PLeftTrim WsSpaces (PTerm (TLit LInteger)).
+Definition exl_plus : pexpr := PLeftTrim WsSpaces (PTerm (TLit (LOp [43]))).
+Definition exl_body : pexpr := PAny [PSeq SeqOf INone false None [PRef 0; exl_plus; exl_int]; exl_int].
+Definition exl_rules : list pexpr := [PMemo 1 exl_body].
+Definition exl_site (idx : N) : option pexpr := if idx =? 1 then Some exl_body else None.
+Definition exl_Sz : nat := size (PMemo 1 exl_body).
+Definition exl_inp : input := mk_input [49; 32; 43; 32; 50] 1.       (* "1 + 2" *)
+
+Example exl_wf_grammar : wf_grammar exl_rules exl_site [1] exl_Sz.
+Proof.
+  intros k body H. unfold nth_N in H. destruct (N.to_nat k) as [|n]; [|destruct n; discriminate H].
+  cbn in H. injection H as <-. split; [exists 1, exl_body; reflexivity|].
+  split; [|split; [|unfold exl_Sz; apply Nat.le_refl]].
+  - cbn. split; [reflexivity|]. split; [left; reflexivity|]. tauto.
+  - cbn. tauto.
+Qed.
+Example exl_root_ok : wfe exl_site [1] (PRef 0) /\ reps_ok exl_rules (PRef 0) /\ (size (PRef 0) <= exl_Sz)%nat.
+Proof. split; [exact I|]. split; [exact I|]. vm_compute. lia. Qed.
+Example exl_fuel_bound : fuel_bound exl_inp [1] exl_Sz = 912%nat.
+Proof. vm_compute. reflexivity. Qed.
+(* the theorem applies (no evaluation of the engine) ... *)
+Example exl_terminates : forall fuel, (fuel_bound exl_inp [1%N] exl_Sz <= fuel)%nat ->
+  run exl_inp exl_rules fuel (PRef 0) <> OutOfFuel /\
+  run exl_inp exl_rules fuel (PRef 0) = run exl_inp exl_rules (fuel_bound exl_inp [1] exl_Sz) (PRef 0).
+Proof.
+  intros fuel Hf. destruct exl_root_ok as [H1 [H2 H3]].
+  apply (C02_terminates_run exl_inp exl_rules exl_site [1] exl_Sz exl_wf_grammar fuel (PRef 0) H1 H2 H3 Hf).
+Qed.
+Example exl_run_not_oof : run exl_inp exl_rules (fuel_bound exl_inp [1] exl_Sz) (PRef 0) <> OutOfFuel.
+Proof. apply (exl_terminates _ (Nat.le_refl _)). Qed.
+(* ... and the run at the bound finds the whole sum "1 + 2" (ending at 1 + 5 = 6) and the prefix "1" *)
+Example exl_run :
+  match run exl_inp exl_rules 912 (PRef 0) with
+  | Ok (ns, _, _, c) => (map node_rpos ns, length (g_bodies c))
+  | _ => ([], O)
+  end = ([6; 2], 7%nat).
+Proof. vm_compute. reflexivity. Qed.
+(* every alternative of the rule consumes: the literal parsers Integer and Op are strict *)
+Example exl_body_consuming : consuming exl_rules exl_body.
+Proof.
+  apply CAny. intros p [E|[E|[]]]; subst p.
+  - apply (CSeqOf _ _ _ _ _ exl_int); [right; right; left; reflexivity|].
+    apply CLeftTrim, CTerm. reflexivity.
+  - apply CLeftTrim, CTerm. reflexivity.
+Qed.
+(* a user regular expression that matches the empty string is NOT consuming (it is outside the
+   documented domain [term_ok]: Go's getPattern panics on it); every in-domain terminal is *)
+Example exl_nullable_regexp_not_consuming :
+  ~ consuming exl_rules (PTerm (TLit (LRegexp (Regex.RStar (Regex.RClass false [(97, 97)])) 0))).
+Proof. intros X. inversion X as [t0 Hs0| | | | | | | | | | | | | |]. discriminate Hs0. Qed.
+Example term_ok_consuming rules t : term_ok t = true -> consuming rules (PTerm t).
+Proof. intros H. apply CTerm, term_ok_strict, H. Qed.
